@@ -129,6 +129,7 @@ def apply_plan(full, info, plan, conc):
         return None               # BHT02 of these guides selects the map itself (Driver.tla): not an ordinary element fault
     alt = []
     value = ''
+    until = None
     at = si          # index of the segment that carries the fault in the new document
     before = notes_status(n, vals)
 
@@ -275,6 +276,32 @@ def apply_plan(full, info, plan, conc):
             return None
         del info[si]
         at = si
+        # how far the report may lag: over the following same-ordinal segment siblings of the missing node
+        until = si
+        while until + 1 < len(info) and info[until][0] in nodes and nodes[info[until][0]]['kind'] == 'seg' \
+                and nodes[info[until][0]]['parent'] == n['parent'] and nodes[info[until][0]]['pos'] == n['pos']:
+            until += 1
+    elif kind == 'MissingRequiredLoop':
+        loop = n['parent']
+
+        def inside_l(x):
+            p = nodes[x]['parent'] if x in nodes else None
+            while p:
+                if p == loop:
+                    return True
+                p = nodes[p]['parent']
+            return False
+        j = si + 1
+        while j < len(info) and info[j][0] and inside_l(info[j][0]) and info[j][0] != nid:
+            j += 1
+        inst = info[si:j]
+        # only where the loop occurs once (a repeated one leaves a conformant document), where something follows inside the set, and
+        # where no hierarchical level / service line / LS-LE bracket would have to be renumbered or re-bracketed
+        if j >= len(info) or info[j][0] == nid or (si > 0 and info[si - 1][0] and inside_l(info[si - 1][0])) \
+                or any(x[1] in ('HL', 'LX', 'LS', 'LE') for x in inst) or (si > 0 and info[si - 1][1] == 'LS') or info[j][1] in ('SE', 'GE', 'IEA'):
+            return None
+        del info[si:j]
+        at = si
     elif kind == 'SegOverMax':
         m = n['rep']
         have = 1
@@ -324,7 +351,7 @@ def apply_plan(full, info, plan, conc):
         at = k + (extra - 1) * len(inst)
     else:
         return None
-    if kind not in ('UnknownSeg', 'OutOfPlaceSeg', 'MissingRequiredSeg', 'SegOverMax', 'LoopOverMax'):
+    if kind not in ('UnknownSeg', 'OutOfPlaceSeg', 'MissingRequiredSeg', 'MissingRequiredLoop', 'SegOverMax', 'LoopOverMax'):
         info[si] = (nid, sid, vals)
     # keep the envelope consistent: recount SE01
     cnt = 0
@@ -340,7 +367,7 @@ def apply_plan(full, info, plan, conc):
     last_se = max([k for k, x in enumerate(info[:at]) if x[1] == 'SE'] or [-1])
     if last_st < 0 or last_se > last_st:
         faultset = 0          # the fault is outside any transaction set (TA1 after GE ...): no set carries it
-    return info, {'seg': n['id'] if kind not in ('UnknownSeg', 'OutOfPlaceSeg') else sid, 'at': at, 'ele': ei, 'sub': ci, 'value': value}, alt, faultset
+    return info, {'seg': n['id'] if kind not in ('UnknownSeg', 'OutOfPlaceSeg') else sid, 'at': at, 'until_at': until if until is not None else at, 'ele': ei, 'sub': ci, 'value': value}, alt, faultset
 
 
 def _run_batch(args):
@@ -364,6 +391,8 @@ def _run_batch(args):
         text = conc.render(info2)
         r = wc.run_validator(text, want_ack=True)
         at = inj.pop('at')
+        ua = inj.pop('until_at')
+        inj['until'] = r['nodes'][ua]['segpos'] if ua < len(r['nodes']) else -1
         if at < len(r['nodes']):
             inj['segpos'] = r['nodes'][at]['segpos']
             inj['line'] = r['nodes'][at]['line']
